@@ -380,8 +380,9 @@ func (r *R) holder(ctx sdk.Context, g *hx.Rng, d string) int {
 func (r *R) genRemove(ctx sdk.Context, g *hx.Rng, v view) string {
 	dl := r.deadline(g, v.now)
 	if len(v.pools) == 0 || g.Chance(1, 20) {
-		lpt := []string{"lpt-9", "abc-1", "lptx", "lpt-1-1", "lpt-x"}[g.Intn(5)]
-		return "coinswap remove " + hx.KV("sender", hx.AccName(r.acc(g)), "lpt", "5:"+lpt, "minstd", 0, "mintok", 0, "deadline", dl)
+		lpt := []string{"lpt-9", "abc-1", "abc-2", "lptx", "lpt-1-1", "lpt-x"}[g.Intn(6)]
+		// a foreign coin whose denom ends like a liquidity denom, sent by an account that holds it
+		return "coinswap remove " + hx.KV("sender", hx.AccName(r.holder(ctx, g, lpt)), "lpt", "5:"+lpt, "minstd", 0, "mintok", 0, "deadline", dl)
 	}
 	p := v.pools[g.Intn(len(v.pools))]
 	sender := r.holder(ctx, g, p.lpt)
